@@ -6,6 +6,7 @@ package reader
 // partition must have been started; older incarnations and creating->dropped objects must not.
 
 import (
+	"encoding/json"
 	"context"
 	"fmt"
 	"os"
@@ -95,7 +96,9 @@ func c13Run(t *testing.T, sc *c13Scenario, ctl *sched.Ctl) sched.Outcome {
 	}
 	visibleAtStart := map[string][]inc{}
 	for _, x := range cat.Colls {
-		if x.State != "tombstone" {
+		// (an incarnation that is still being created is not part of the listing: GetAllCollection returns created,
+		// dropping and dropped records; it is announced by the watch when its creation completes)
+		if x.State != "tombstone" && x.State != "creating" {
 			k := fmt.Sprintf("%d/%s", x.DB, x.Name)
 			visibleAtStart[k] = append(visibleAtStart[k], inc{x.ID, x.State, x.CreateTs, x.DB, x.Name})
 		}
@@ -224,6 +227,11 @@ func c13Run(t *testing.T, sc *c13Scenario, ctl *sched.Ctl) sched.Outcome {
 			if !mgr.droppedColl[old.id] {
 				add("C13/older-incarnation-not-dropped", "%s: older incarnation %d was not recorded as dropped", k, old.id)
 			}
+			for _, p := range cat.Parts {
+				if p.Coll == old.id && mgr.parts[p.ID] > 0 {
+					add("C13/older-incarnation-partition-added", "%s: partition %d (%s) of the older incarnation %d was added although %d is newer", k, p.ID, p.Name, old.id, incs[len(incs)-1].id)
+				}
+			}
 		}
 	}
 	var sum []string
@@ -317,6 +325,91 @@ func TestVerifC13Start(t *testing.T) {
 	plReport(res, e, "C13")
 	res.Bounds["scenarios"] = len(scs)
 	res.Rule = "sched engine: the real CollectionReader.StartRead and the real EtcdOp (watch goroutines, event pool) over fakeetcd with a recording ChannelManager; source catalog = history before the task start + up to 4 catalog writes (create collection in one of two databases, creating->created, creating->tombstone, drop->dropped->tombstone and re-create of the same name, create partition, create database) each placed at every decision point among the reader's subscribe / open-watch / list / per-object / start-watch steps (every etcd Get and Watch call of the reader is a scheduling point; catalog writes cost no deviation); all schedules within the deviation bound; oracle at quiescence against the catalog model: every live collection and non-default partition started at least once, objects that never reached state created not started, of several incarnations visible at start only the newest started and the older recorded as dropped; non-trivial = executions in which a catalog write landed between the reader's first and last etcd call"
+}
+
+// C13 (listing part): every source catalog reachable by a bounded history is what the reader finds at task start (no
+// concurrent catalog writes): explicit-state search over the histories, one real StartRead per distinct catalog, every
+// zero-cost schedule of the reader's own goroutines; the oracle of the start part judges what reached the channel manager
+// (any number of incarnations of a name, in any state, in either database, with partitions under old and new ones).
+func TestVerifC13Listing(t *testing.T) {
+	res := ev.New("C13", "listing")
+	defer res.Write()
+	log.Info("warm up the logger outside the bubble")
+	schedQuiet()
+	sched.StartWatchdog(90 * time.Second)
+	VerifReleaseOutsidePools()
+	depth := 8
+	if ev.Thorough() {
+		depth = 10
+	}
+	res.Bounds["history_depth"] = depth
+	var ops []catOp
+	ops = append(ops, catOp{Kind: "createDB", DB: 2, Name: "db1"})
+	for _, db := range []int64{1, 101} {
+		for _, k := range []string{"createColl", "beginCreateColl", "dropColl", "droppedColl", "gcColl", "createPart", "dropPart"} {
+			ops = append(ops, catOp{Kind: k, DB: db, Name: "a"})
+		}
+	}
+	e := sched.NewExplorer(t, 0)
+	e.Horizon = 15 * time.Second
+	e.MaxSteps = 500
+	e.Deadline = time.Now().Add(ev.Budget(150 * time.Second))
+	e.OnExec = func(sc *sched.Scenario, choices []int) { fmt.Printf("EXEC %s %v\n", sc.Name, choices) }
+	if p := os.Getenv("VERIF_REPLAY"); p != "" {
+		var f struct {
+			Replay struct {
+				Scenario string `json:"scenario"`
+			} `json:"replay"`
+		}
+		b, _ := os.ReadFile(p)
+		_ = jsonUnmarshalR(b, &f)
+		var hist []catOp
+		_ = jsonUnmarshalR([]byte(strings.TrimPrefix(f.Replay.Scenario, "listing:")), &hist)
+		sc := &c13Scenario{Name: f.Replay.Scenario, Before: hist}
+		plReplay(t, res, e, []*sched.Scenario{{Name: sc.Name, Run: func(t *testing.T, ctl *sched.Ctl) sched.Outcome { return c13Run(t, sc, ctl) }}}, p)
+		return
+	}
+	seen := map[string]bool{newCatalog().Canon(): true}
+	frontier := [][]catOp{nil}
+	states, n := 1, 0
+	for d := 0; d < depth && len(frontier) > 0; d++ {
+		var next [][]catOp
+		for _, h := range frontier {
+			for _, o := range ops {
+				nh := append(append([]catOp{}, h...), o)
+				c, ok := catBuild(nh)
+				if !ok {
+					continue
+				}
+				k := c.Canon()
+				if seen[k] {
+					continue
+				}
+				seen[k] = true
+				states++
+				next = append(next, nh)
+				n++
+				if !ev.Mine(n) {
+					continue
+				}
+				if time.Now().After(e.Deadline) {
+					e.Stats.Exhaustive = false
+					continue
+				}
+				hb, _ := json.Marshal(nh)
+				sc := &c13Scenario{Name: "listing:" + string(hb), Before: nh}
+				e.Explore(&sched.Scenario{Name: sc.Name, Group: "listing", Run: func(t *testing.T, ctl *sched.Ctl) sched.Outcome {
+					out := c13Run(t, sc, ctl)
+					out.Nontrivial = strings.Count(k, ":a:") >= 2
+					return out
+				}})
+			}
+		}
+		frontier = next
+	}
+	plReport(res, e, "C13")
+	res.Bounds["catalogs"] = states
+	res.Rule = fmt.Sprintf("explicit-state search over source catalog histories of <= %d operations {create database db1; per database in {default, db1}: create / begin-create / drop(->dropping) / dropped / gc collection a, create / drop partition p}, catalogs deduplicated on content; each distinct catalog is the state the real CollectionReader.StartRead + EtcdOp find at task start (fakeetcd, recording channel manager), run under every zero-cost schedule of the reader's goroutines; oracle of the start part (live newest incarnations and their partitions started, never-created objects ignored, every older visible incarnation not started, recorded as dropped, its partitions not added); non-trivial = catalogs with at least two incarnations of the name in one listing", depth)
 }
 
 // C13 (lookup part): the watch-event consumers resolve a partition's collection and a collection's
